@@ -678,8 +678,38 @@ fn run_session_case(ctx: &mut Ctx, rng: &mut Rng, resp: &[Vec<u8>], untagged: &[
         } else if last && ending == 2 {
         } else {
             let status = *rng.pick(&["OK", "NO", "BAD"]);
-            let text = *rng.pick(&["", " done", " [READ-WRITE] ok", " [UIDNEXT 7]", " [ALERT] x y"]);
-            part.extend_from_slice(format!("{} {}{}\r\n", tag, status, text).as_bytes());
+            let mut text = rng.pick(&["", " done", " [READ-WRITE] ok", " [UIDNEXT 7]", " [ALERT] x y"]).to_string();
+            if rng.chance(1, 3) {
+                // free-form text that resembles other syntax: a literal header at the end of the line or
+                // inside it, brackets, quotes, a tag, a response start, digits, a long line
+                text = match rng.below(16) {
+                    0 => " CHECK completed, next checkpoint in {30}".to_string(),
+                    1 => " {0}".to_string(),
+                    2 => " x {3+}".to_string(),
+                    3 => " {5} in the middle".to_string(),
+                    4 => format!(" see {{{}}}", *rng.pick(&[1u32, 2, 7, 100, 4096, 65536, 4294967295])),
+                    5 => " [ALERT] quota {12}".to_string(),
+                    6 => " ends with backslash \\".to_string(),
+                    7 => " \"unbalanced".to_string(),
+                    8 => " (unbalanced".to_string(),
+                    9 => " text ]".to_string(),
+                    10 => format!(" {} OK nested", tag),
+                    11 => " * OK fake".to_string(),
+                    12 => " 12345".to_string(),
+                    13 => format!(" {}", "long text ".repeat(*rng.pick(&[30usize, 120, 900]))),
+                    14 => " trailing space ".to_string(),
+                    _ => " + go ahead".to_string(),
+                };
+            }
+            let mut line = format!("{} {}{}\r\n", tag, status, text).into_bytes();
+            let fine = match imap_proto::Response::from_bytes(&line) {
+                Ok((rest, imap_proto::Response::Done { tag: t, .. })) => rest.is_empty() && t.0 == tag,
+                _ => false,
+            };
+            if !fine {
+                line = format!("{} {} done\r\n", tag, status).into_bytes();
+            }
+            part.extend_from_slice(&line);
             if rng.chance(1, 5) {
                 { let e: &Vec<u8> = rng.pick(untagged); part.extend_from_slice(e); } // unsolicited data after the completion
             }
@@ -959,13 +989,14 @@ fn stream_io<'a, 'b>(s: &'a mut tokio_imap::verif::ResponseStream<'b, MockIo>) -
     s.verif_io()
 }
 
-fn run_tags(ctx: &mut Ctx) {
-    // 30 000 consecutive commands on one connection: three full periods of the generator
+fn run_tags(ctx: &mut Ctx, thorough: bool) {
+    // 140 000 consecutive commands on one connection: fourteen periods of the generator, and past the
+    // points where an 8-bit or a 16-bit counter would wrap (256, 65 536, 131 072)
     let io = MockIo::default();
     let mut client = Client::verif_new(io);
     let (_wk, waker) = counting_waker();
     let mut cx = Context::from_waker(&waker);
-    let n = 30_000u64;
+    let n = 140_000u64;
     for _ in 0..n {
         let mut stream = client.verif_call(CommandBuilder::check());
         let _ = Pin::new(&mut stream).poll_next(&mut cx);
@@ -980,9 +1011,14 @@ fn run_tags(ctx: &mut Ctx) {
         let t: Vec<u8> = l.iter().copied().take_while(|&c| c != b' ').collect();
         tags.push(t);
     }
+    let near = |i: usize, m: usize| -> bool { let r = (i + 1) % m; r <= 40 || m - r <= 40 };
     for (i, t) in tags.iter().enumerate() {
         let op = format!("tag {}", i + 1);
-        ctx.queue(op.clone(), hex(t));
+        // the model is asked about the first 30 000 tags, about every tag around a multiple of 256,
+        // 10 000 or 65 536, and about every 97th one; the oracles below look at all of them
+        if i < 30_000 || near(i, 10_000) || near(i, 65_536) || (near(i, 256) && i < 70_000) || i % 97 == 0 {
+            ctx.queue(op.clone(), hex(t));
+        }
         // valid tag: non-empty, ASTRING-CHARs except '+'
         let valid = !t.is_empty() && t.iter().all(|&c| c != b'+' && imap_proto::parser::core::is_astring_char(c));
         if !valid {
@@ -1004,8 +1040,47 @@ fn run_tags(ctx: &mut Ctx) {
         }
         last_seen.insert(t.clone(), i);
     }
-    ctx.log.exhaustive.push("30 000 consecutive tags of one connection (three periods)".to_string());
+    ctx.log.exhaustive.push("140 000 consecutive tags of one connection (fourteen periods; past the wrap of an 8-bit and of a 16-bit counter)".to_string());
     ctx.log.count_n("c11:tags", n);
+    if thorough {
+        // the bare generator, 2^32 + 30 000 steps (past the wrap of a 32-bit counter): each tag against
+        // the model's closed form A<4 digits of i mod 10 000> (the form the driver is asked about above),
+        // which also gives distinctness in every window of 10 000
+        let mut g = tokio_imap::verif::IdGenerator::new();
+        let total: u64 = (1u64 << 32) + 30_000;
+        let mut digits = [b'0'; 4];
+        let mut bad = 0;
+        for i in 1..=total {
+            // increment the 4-digit counter
+            let mut k = 3;
+            loop {
+                if digits[k] == b'9' {
+                    digits[k] = b'0';
+                    if k == 0 { break; }
+                    k -= 1;
+                } else {
+                    digits[k] += 1;
+                    break;
+                }
+            }
+            let t = g.next().unwrap();
+            let b = t.as_bytes();
+            if !(b.len() == 5 && b[0] == b'A' && b[1..] == digits) {
+                bad += 1;
+                if bad <= 3 {
+                    ctx.fail(
+                        "tags",
+                        format!("tag {:?} of command {} differs from A{} (model)", String::from_utf8_lossy(b), i, String::from_utf8_lossy(&digits)),
+                        &format!("tag {}", i),
+                    );
+                }
+                // resynchronise on what the generator said, so that one slip is one report
+                if b.len() == 5 { digits.copy_from_slice(&b[1..]); }
+            }
+        }
+        ctx.log.exhaustive.push("2^32 + 30 000 consecutive tags of the bare generator against the closed form (past the wrap of a 32-bit counter)".to_string());
+        ctx.log.count_n("c11:tags-bare", total);
+    }
 }
 
 /// C08 through the codec: a FETCH response whose literal holds protocol look-alikes, followed by
@@ -1234,7 +1309,7 @@ fn main() {
                             run_session_case(&mut ctx, &mut rng, resp, untagged, &prop);
                         }
                         if prop == "C11" && shard == 0 {
-                            run_tags(&mut ctx);
+                            run_tags(&mut ctx, thorough);
                         }
                     }
                     _ => {}
